@@ -191,6 +191,17 @@ pub fn do_damage_op(st: &mut TreeSt, toks: &[&str], _c: &mut Ctx) -> String {
                 }
             }
         }
+        "BPUSH" => {
+            if let Some(id) = branch_at(p(toks[2]) as usize) {
+                if let Some(b) = t.get_branch_mut(id) {
+                    let (_, ks, cs) = b.verif_fields_mut();
+                    ks.push(VKey::new(p(toks[3]), p(toks[4]) as u64));
+                    if let Some(last) = cs.last().copied() {
+                        cs.push(last);
+                    }
+                }
+            }
+        }
         "BREF" => {
             if let Some(id) = branch_at(p(toks[2]) as usize) {
                 if let Some(b) = t.get_branch_mut(id) {
